@@ -8,15 +8,20 @@ W=/tmp/vscratch/confirm_$$
 mkdir -p /tmp/vscratch
 git -C /repo worktree add --detach -f "$W" HEAD >/dev/null 2>&1 || exit 2
 cp -al /repo/target "$W/target" 2>/dev/null
+mkdir -p "$(dirname "$W/$dest")"
 cp "$demo" "$W/$dest"
-cd "$W"
+cd "$W" || exit 2
 echo "== demo WITHOUT the change"
 cargo test --offline "$@" 2>&1 | grep -E "^test result|^test .*(FAILED|ok)$|error(\[|:)" | head -12
 git apply "$patch" || { echo "patch does not apply"; }
 echo "== demo WITH the change"
 cargo test --offline "$@" 2>&1 | grep -E "^test result|^test .*(FAILED|ok)$|error(\[|:)" | head -12
-rm -f "$W/$dest"
+# drop the demonstration again (untracked files only; the build output stays)
+git -C "$W" clean -fdq -e target
 echo "== existing suite WITH the change"
 cargo test --workspace --no-fail-fast --offline 2>&1 | grep -E "^test result" | awk '{p+=$4; f+=$6} END {print "passed", p, "failed", f}'
 cd /
-git -C /repo worktree remove --force "$W" >/dev/null 2>&1; rm -rf "$W"; git -C /repo worktree prune
+git -C /repo worktree remove --force "$W" >/dev/null 2>&1
+git -C /repo worktree prune
+[ -d "/tmp/vscratch/confirm_$$" ] && find "/tmp/vscratch/confirm_$$" -mindepth 0 -delete 2>/dev/null
+exit 0
